@@ -646,7 +646,7 @@ func (g *ArtGen) figure() {
 // ---------------------------------------------------------------------------
 // hidden and skipped carriers (C04)
 
-var hiddenBlockKinds = []string{"script", "style", "comment", "hidden-attr", "display-none", "vis-hidden", "vis-collapse", "aria-hidden", "display-none-nested", "figcaption-hidden", "script-styled", "style-styled", "figure-hidden-caption"}
+var hiddenBlockKinds = []string{"script", "style", "comment", "hidden-attr", "display-none", "vis-hidden", "vis-collapse", "aria-hidden", "display-none-nested", "figcaption-hidden", "script-styled", "style-styled", "figure-hidden-caption", "display-none-font"}
 var skippedKinds = []string{"form", "input", "button", "select", "textarea", "noscript", "svg", "object", "embed", "applet", "iframe"}
 
 func (g *ArtGen) hiddenCarrier(kind string) {
@@ -660,15 +660,34 @@ func (g *ArtGen) hiddenCarrier(kind string) {
 	case "comment":
 		g.w(`<!-- ` + t(3) + ` -->`)
 	case "hidden-attr":
-		g.w(`<div hidden>` + t(4) + `</div>`)
+		switch g.r.Intn(4) {
+		case 0:
+			// the class that exempts aria-hidden images must not un-hide anything else
+			g.w(`<div hidden class="mwe-math-fallback-image-inline">` + t(4) + `</div>`)
+		case 1:
+			g.w(`<font hidden color="red">` + t(3) + `</font>`)
+		default:
+			g.w(`<div hidden>` + t(4) + `</div>`)
+		}
 	case "display-none":
 		g.w(`<div style="` + []string{"display:none", "display:none ", "display: none ;", "color:red;display:none", "display:\nnone;\n color:blue", "DISPLAY:none", "display:NONE", "display:none !important", "display: None!important; color:red"}[g.r.Intn(9)] + `">` + t(4) + `</div>`)
 	case "vis-hidden":
-		g.w(`<div style="visibility:hidden">` + t(3) + `</div>`)
+		switch g.r.Intn(4) {
+		case 0:
+			g.w(`<span class="fallback-image" style="visibility:hidden">` + t(3) + `</span>`)
+		case 1:
+			g.w(`<font style="visibility: hidden" face="x">` + t(2) + `</font>`)
+		default:
+			g.w(`<div style="visibility:hidden">` + t(3) + `</div>`)
+		}
 	case "vis-collapse":
 		g.w(`<div style="color:red; visibility: collapse">` + t(3) + `</div>`)
 	case "aria-hidden":
-		g.w(`<div aria-hidden="true">` + t(3) + `</div>`)
+		if g.r.Intn(3) == 0 {
+			g.w(`<font aria-hidden="true">` + t(2) + `</font>`)
+		} else {
+			g.w(`<div aria-hidden="true">` + t(3) + `</div>`)
+		}
 	case "figure-hidden-caption":
 		g.w(`<figure><img src="/img/hc` + fmt.Sprint(len(g.L.Toks)) + `.png" width="600" height="400"><div hidden><figcaption>` + t(3) + `</figcaption></div></figure>`)
 	case "script-styled":
@@ -677,6 +696,8 @@ func (g *ArtGen) hiddenCarrier(kind string) {
 		g.w(`<style style="display: block" media="all">.` + t(1) + ` { color: blue }</style>`)
 	case "figcaption-hidden":
 		g.w(`<figcaption hidden>` + t(2) + ` <a href="/hid/cap.html">` + t(1) + `</a></figcaption>`)
+	case "display-none-font":
+		g.w(`<font style="display:none" class="fallback-image x">` + t(3) + `</font>`)
 	case "display-none-nested":
 		g.w(`<div style="display: none;"><p>` + t(20) + `</p><ul><li>` + t(3) + `</li></ul></div>`)
 	}
@@ -907,6 +928,29 @@ func (g *ArtGen) block() {
 	opts := []opt{
 		{10, true, func() { g.paragraph(g.paraLen()) }},
 		{2, p.Inline, g.wrapped},
+		{2, p.Wrappers, func() {
+			// elements whose display is not what their tag suggests
+			g.L.Kinds["styled-wrapper"]++
+			n := 15 + g.r.Intn(40)
+			switch g.r.Intn(8) {
+			case 0:
+				g.w(`<dialog style="display: block"` + g.noise() + `>` + g.toks(n) + `</dialog>` + "\n")
+			case 1:
+				g.w(`<dialog open` + g.noise() + `><p>` + g.toks(n) + `</p></dialog>` + "\n")
+			case 2:
+				g.w(`<div` + g.noise() + `>` + g.toks(8) + ` <span style="display:block">` + g.toks(n) + `</span> ` + g.toks(5) + `</div>` + "\n")
+			case 3:
+				g.w(`<div style="display:inline">` + g.toks(n) + `</div> <div style="display: inline-block;">` + g.toks(6) + `</div>` + "\n")
+			case 4:
+				g.w(`<details open><summary>` + g.toks(3) + `</summary><p>` + g.toks(n) + `</p></details>` + "\n")
+			case 5:
+				g.w(`<dl><dt>` + g.toks(2) + `</dt><dd>` + g.toks(n) + `</dd></dl>` + "\n")
+			case 6:
+				g.w(`<address>` + g.toks(6) + `</address><main><p>` + g.toks(n) + `</p></main>` + "\n")
+			default:
+				g.w(`<p style="display:list-item">` + g.toks(n) + `</p><center>` + g.toks(10) + `</center>` + "\n")
+			}
+		}},
 		{1, true, func() {
 			// a block with text but no words
 			g.L.Kinds["separator"]++
